@@ -102,5 +102,24 @@ def getItem (S : Sys V) : Nat → SId → Idx → World V → Res V
           | (.error e, w') => (.error (rewrap e), w'.set s i none)
 end
 
+/-! ### a request for several elements (`series[item]` with lists or slices): the elements are looked up one after the other, in the order of
+`np.where`, each evaluated only if it is not cached by then (an element evaluated re-entrantly by an earlier one is found in the cache) -/
+
+/-- the loop of `BlockSeries.__getitem__` over the positions of a request; stops at the first error -/
+def getMany (S : Sys V) (f : Nat) (s : SId) : List Idx → World V → Except Err (List V) × World V
+  | [], w => (.ok [], w)
+  | i :: rest, w =>
+      match getItem S f s i w with
+      | (.ok v, w') =>
+          (match getMany S f s rest w' with
+           | (.ok vs, w'') => (.ok (v :: vs), w'')
+           | (.error e, w'') => (.error e, w''))
+      | (.error e, w') => (.error e, w')
+
+/-- the same loop as an eval script (what a series whose element reads several elements of another one does) -/
+def manyScript (s : SId) : List Idx → V → Script V
+  | [], last => .pure last
+  | i :: rest, _ => .get s i fun v => manyScript s rest v
+
 end Machine
 end Pyma
